@@ -90,6 +90,36 @@ static size_t count_copy_after_edit(const unsigned char* b, size_t n, int* prese
   cbor_decref(&s);
   return c;
 }
+/* the same block attached again, with the same length, after its bytes were rewritten in place: the count describes the new bytes */
+static size_t count_reattach_same(const unsigned char* b, size_t n, int* preserved) {
+  cbor_item_t* s = cbor_new_definite_string();
+  unsigned char* h = va_malloc(n);
+  memset(h, 'a', n);
+  cbor_string_set_handle(s, h, n);
+  if (n) memcpy(h, b, n);
+  cbor_string_set_handle(s, h, n);
+  size_t c = cbor_string_codepoint_count(s);
+  if (cbor_string_length(s) != n || memcmp(cbor_string_handle(s), b, n)) *preserved = 0;
+  cbor_decref(&s);
+  return c;
+}
+/* a copy of an indefinite text string whose (middle) chunk holds these bytes: the copied chunk has the same length, content and count */
+static size_t count_copy_chunked(const unsigned char* b, size_t n, int* preserved) {
+  cbor_item_t* s = cbor_new_indefinite_string();
+  cbor_item_t* c0 = cbor_build_string("a");
+  cbor_item_t* c1 = cbor_build_stringn((const char*)b, n);
+  (void)cbor_string_add_chunk(s, c0); (void)cbor_string_add_chunk(s, c1); (void)cbor_string_add_chunk(s, c0);
+  cbor_item_t* cp = cbor_copy(s);
+  size_t c = (size_t)-1;
+  if (cp && cbor_string_chunk_count(cp) == 3) {
+    cbor_item_t* m = cbor_string_chunks_handle(cp)[1];
+    c = cbor_string_codepoint_count(m);
+    if (cbor_string_length(m) != n || memcmp(cbor_string_handle(m), b, n)) *preserved = 0;
+  } else *preserved = 0;
+  if (cp) cbor_decref(&cp);
+  cbor_decref(&c0); cbor_decref(&c1); cbor_decref(&s);
+  return c;
+}
 /* the NUL-terminated builder (only for texts without a NUL byte) */
 static size_t count_buildz(const unsigned char* b, size_t n, int* preserved) {
   if (memchr(b, 0, n)) return (size_t)-2;
@@ -171,6 +201,8 @@ static void txt_line(const unsigned char* b, size_t n) {
   vh_kint("cp_chunk", n < 256 ? (long long)g : (long long)a);
   { size_t ce = count_copy_after_edit(b, n, &preserved), cz = count_buildz(b, n, &preserved);
     vh_kint("cp_copyedit", (long long)ce);
+    vh_kint("cp_reattach_same", (long long)count_reattach_same(b, n, &preserved));
+    vh_kint("cp_copychunked", (long long)count_copy_chunked(b, n, &preserved));
     vh_kint("cp_buildz", cz == (size_t)-2 ? (long long)a : (long long)cz); }
   vh_kbool("loaded", loaded);
   vh_kbool("same", preserved);
